@@ -1,6 +1,8 @@
 mod bristol_ref;
 mod c06;
 mod c11;
+mod c16;
+mod circ_ref;
 mod driver;
 mod gen;
 mod prng;
@@ -142,9 +144,28 @@ fn c11_def(plan: &c11::CasePlan) -> driver::PropertyDef {
     }
 }
 
+fn c16_def(plan: &c16::CasePlan) -> driver::PropertyDef {
+    driver::PropertyDef {
+        id: "C16",
+        level: "fault_enumeration",
+        rule: "families: honest = compiler and converter outputs over a fault-free channel (validation must accept); sweep = complete single-fault enumeration on the serde_json message of tiny circuits in all four encodings (every digit x every other digit, every number token x 16 boundary values, every array element duplicated/dropped, every array emptied, every op name x every name, every byte duplicated/deleted); seeded = 1-3 PRNG-drawn channel faults on small circuits; bristol = Bristol text damaged on the simulated disk, imported, validated, evaluated and converted to register form. evaluations = validate() and eval() calls executed. distinct_nontrivial = distinct damaged circuit VALUES (structural hash) that deserialised/imported successfully and differ from the honest circuit",
+        assumptions: vec![
+            "only circuit values reachable by damaging honest messages are explored; values far from any honest message (many coordinated edits) are outside this engine's reach".into(),
+            "circuits declaring more than 2^26 input bits / 2^28 registers are not validated, more than 2^20 input bits not evaluated (counted as skipped)".into(),
+            "validate() itself panicking or rejecting a damaged circuit is logged, not a violation: the statement constrains accepted circuits only".into(),
+            "eval is called with all-zeros, all-ones and two PRNG input vectors of exactly the declared shape".into(),
+        ],
+        components: components(),
+        crash_is_violation: true,
+        n_cases: plan.n_cases(),
+        determinism_sample: 0,
+    }
+}
+
 fn run_case_dispatch(property: &str, tier: &str, seed: u64, idx: u64) -> supervise::CaseResult {
     thread_local! {
         static C06PLAN: std::cell::RefCell<Option<(String, std::rc::Rc<c06::Plan>)>> = const { std::cell::RefCell::new(None) };
+        static C16PLAN: std::cell::RefCell<Option<(String, std::rc::Rc<c16::CasePlan>)>> = const { std::cell::RefCell::new(None) };
         static C11PLAN: std::cell::RefCell<Option<(String, std::rc::Rc<c11::CasePlan>)>> = const { std::cell::RefCell::new(None) };
     }
     match property {
@@ -167,6 +188,16 @@ fn run_case_dispatch(property: &str, tier: &str, seed: u64, idx: u64) -> supervi
                 c.as_ref().unwrap().1.clone()
             });
             c11::run_case(&plan, seed, idx)
+        }
+        "C16" => {
+            let plan = C16PLAN.with(|c| {
+                let mut c = c.borrow_mut();
+                if c.as_ref().map(|(t, _)| t != tier).unwrap_or(true) {
+                    *c = Some((tier.to_string(), std::rc::Rc::new(c16::CasePlan::load(tier).expect("corpus"))));
+                }
+                c.as_ref().unwrap().1.clone()
+            });
+            c16::run_case(&plan, seed, idx)
         }
         _ => panic!("unknown property {property}"),
     }
@@ -197,6 +228,18 @@ fn check(property: &str, tier: &str) -> i32 {
                 }
             };
             let mut def = c11_def(&plan);
+            def.determinism_sample = if tier == "thorough" { 1024 } else { 96 };
+            driver::run_check(&def, tier, seed)
+        }
+        "C16" => {
+            let plan = match c16::CasePlan::load(tier) {
+                Ok(p) => p,
+                Err(e) => {
+                    println!("HARNESS-ERROR: {e}");
+                    return 2;
+                }
+            };
+            let mut def = c16_def(&plan);
             def.determinism_sample = if tier == "thorough" { 1024 } else { 96 };
             driver::run_check(&def, tier, seed)
         }
@@ -282,6 +325,24 @@ fn replay_inner(path: &str) -> i32 {
             Ok(fs) => {
                 for f in fs {
                     println!("VIOLATION property=C11 replay={path}");
+                    println!("  class={} signature={}", f.class, f.signature);
+                    println!("  {}", f.what);
+                }
+                1
+            }
+            Err(e) => {
+                println!("HARNESS-ERROR: {e}");
+                2
+            }
+        },
+        "C16" => match c16::replay(&v) {
+            Ok(fs) if fs.is_empty() => {
+                println!("replay: no violation reproduced");
+                0
+            }
+            Ok(fs) => {
+                for f in fs {
+                    println!("VIOLATION property=C16 replay={path}");
                     println!("  class={} signature={}", f.class, f.signature);
                     println!("  {}", f.what);
                 }
